@@ -202,7 +202,8 @@ def buildDict : List DEntry → Cont → Except Kind Cont
     | .error e => .error e
     | .ok acc' => buildDict rest acc'
   | .mk t (.list items) :: rest, acc =>          -- isinstance(v, list): self.set_group(t, v)
-    if hasKey t.pyStr acc then .error .duplicated
+    if !intLike t.pyStr then .error .fixMessageError       -- _check_tag
+    else if hasKey t.pyStr acc then .error .duplicated
     else
       match buildItems items with
       | .error e => .error e
@@ -234,19 +235,22 @@ def DItem.toCont : DItem → Except Kind Cont
 
 /-- `add_group(tag, group, index)` -/
 def addGroup (c : Cont) (tag : PyObj) (item : DItem) (index : Int) : Except Kind Cont :=
-  let t := tag.pyStr
-  match item.toCont with
-  | .error e => .error e
-  | .ok g =>
-    match lookup t c with
-    | some (.group items) => .ok (dictSet t (.group (groupAdd items g index)) c)
-    | some _ => .error .attributeError        -- a str / class object has no attribute add_group
-    | none => .ok (dictSet t (.group (groupAdd [] g index)) c)
+  if !intLike tag.pyStr then .error .fixMessageError       -- _check_tag: int(str(tag)) raised ValueError
+  else
+    let t := tag.pyStr
+    match item.toCont with
+    | .error e => .error e
+    | .ok g =>
+      match lookup t c with
+      | some (.group items) => .ok (dictSet t (.group (groupAdd items g index)) c)
+      | some _ => .error .duplicated          -- the tag holds a str / class object: DuplicatedTagError
+      | none => .ok (dictSet t (.group (groupAdd [] g index)) c)
 
 /-- `set_group(tag, groups)` -/
 def setGroup (c : Cont) (tag : PyObj) (items : List DItem) : Except Kind Cont :=
   let t := tag.pyStr
-  if hasKey t c then .error .duplicated
+  if !intLike t then .error .fixMessageError               -- _check_tag
+  else if hasKey t c then .error .duplicated
   else
     match buildItems items with
     | .error e => .error e
@@ -276,13 +280,14 @@ def getGroupByTag (c : Cont) (tag gtag gvalue : PyObj) : Except Kind Cont :=
   | .error e => .error e
   | .ok items => findByTag gtag gvalue items
 
-/-- `get_group_by_index(tag, index)`: `index >= len(g)` is tested, then `g[index]` (Python indexing) -/
+/-- `get_group_by_index(tag, index)`: `index >= len(g) or index < -len(g)` is tested, then `g[index]`
+(Python indexing; the IndexError branches are unreachable and kept to mirror `g[index]`) -/
 def getGroupByIndex (c : Cont) (tag : PyObj) (index : Int) : Except Kind Cont :=
   match getGroupList c tag with
   | .error e => .error e
   | .ok items =>
     let n : Int := items.length
-    if index ≥ n then .error .tagNotFound
+    if index ≥ n ∨ index < -n then .error .tagNotFound
     else
       let i := if index < 0 then index + n else index
       if i < 0 then .error .indexError
@@ -349,8 +354,36 @@ end
 /-- `FIXContainer.__str__` (= `__repr__`) -/
 def render (c : Cont) : Str := joinSep [124] (renderFields c)
 
+/-- `c1 == c2` on two class objects: identity (classes are identified by their `str()`) -/
+def Cls.beq : Cls → Cls → Bool
+  | .tagNotFound, .tagNotFound => true
+  | .repeating, .repeating => true
+  | .exc r₁, .exc r₂ => r₁ == r₂
+  | .other r₁, .other r₂ => r₁ == r₂
+  | _, _ => false
+
+mutual
+/-- `v1 == v2` for two stored values: str == str, class identity, `_FIXRepeatingGroupContainer.__eq__`
+(`isinstance(other, …) and self.groups == other.groups`); values of different kinds are unequal -/
+def Val.beq : Val → Val → Bool
+  | .str s₁, .str s₂ => s₁ == s₂
+  | .cls k₁, .cls k₂ => k₁.beq k₂
+  | .group g₁, .group g₂ => beqItems g₁ g₂
+  | _, _ => false
+/-- `list == list` of containers: same length, equal element by element (`FIXContainer.__eq__`) -/
+def beqItems : List (List (Str × Val)) → List (List (Str × Val)) → Bool
+  | [], [] => true
+  | a :: as, b :: bs => beqFields a b && beqItems as bs
+  | _, _ => false
+/-- `list(self.tags.items()) == list(other.tags.items())`: same (key, value) pairs in the same order -/
+def beqFields : List (Str × Val) → List (Str × Val) → Bool
+  | [], [] => true
+  | (t₁, v₁) :: r₁, (t₂, v₂) :: r₂ => t₁ == t₂ && v₁.beq v₂ && beqFields r₁ r₂
+  | _, _ => false
+end
+
 /-- `self == other` for a FIXContainer `other` -/
-def eq (a b : Cont) : Bool := render a == render b
+def eq (a b : Cont) : Bool := beqFields a b
 
 def ignoreStrs : List Str := AsyncFix.Generated.FTags.ignoreTags.map natDigits
 
@@ -358,7 +391,8 @@ def ignoreStrs : List Str := AsyncFix.Generated.FTags.ignoreTags.map natDigits
 def eqDictLoop (c : Cont) : List (PyObj × PyObj) → Except Kind Bool
   | [] => .ok true
   | (t, v) :: rest =>
-    if isGroup c t == some true then .error .fixMessageError
+    if ignoreStrs.contains t.pyStr then eqDictLoop c rest      -- `if str(t) in ignore_tags: continue`
+    else if isGroup c t == some true then .error .fixMessageError
     else
       match getItem c t with
       | .error e => .error e
